@@ -201,6 +201,22 @@ func c15Do(c *c15Call) string {
 			pk, sk := d.GetPK(), d.GetSK()
 			sg, _ := d.Sign(c.arg(1))
 			out = [][]byte{pk[:], sk[:], sg[:], bbool(dilithium.Verify(c.arg(1), sg, &pk))}
+		case "dilithium.NewRoundTrip": // fresh randomness: only the deterministic facts are digested
+			d, err := dilithium.New()
+			if err != nil {
+				out = [][]byte{[]byte(err.Error())}
+				return
+			}
+			pk := d.GetPK()
+			sg, _ := d.Sign(c.arg(0))
+			d2, _ := dilithium.NewDilithiumFromSeed(d.GetSeed())
+			out = [][]byte{bbool(dilithium.Verify(c.arg(0), sg, &pk)), bbool(d2.GetPK() == pk), bbool(dilithium.IsValidDilithiumAddress(d.GetAddress()))}
+		case "xmss.FromHeightRoundTrip":
+			k := xmss.NewXMSSFromHeight(uint8(c.H), xmss.HashFunction(c.HF))
+			pk := k.GetPK()
+			sg, _ := k.Sign(c.arg(0))
+			k2 := xmss.NewXMSSFromExtendedSeed(k.GetExtendedSeed())
+			out = [][]byte{bbool(xmss.Verify(c.arg(0), sg, pk)), bbool(k2.GetPK() == pk), bbool(xmss.IsValidXMSSAddress(k.GetAddress()))}
 		case "js.DilithiumVerify":
 			out = [][]byte{bbool(dilithiumjs.DilithiumVerify(c.arg(0), c.Args[1], c.Args[2]))}
 		case "js.GetDilithiumAddressFromPK":
@@ -320,8 +336,10 @@ func c15Table(sc string, seed uint64, rep int) (calls []c15Call) {
 		for i := 0; i < 3; i++ {
 			add(c15Call{Fn: "dilithium.KeyLife", Args: []string{hx(rng.Bytes(48)), hx(rng.Bytes(5))}})
 		}
+		add(c15Call{Fn: "dilithium.NewRoundTrip", Args: []string{hx(rng.Bytes(7))}})
 	}
 	xmssPrivate := func() {
+		add(c15Call{Fn: "xmss.FromHeightRoundTrip", Args: []string{hx(rng.Bytes(7))}, H: 4, HF: rep % 3})
 		seeds := [][]byte{rng.Bytes(48), rng.Bytes(48)}
 		for hf := 0; hf < 3; hf++ {
 			for _, h := range []int{4, 6} {
